@@ -148,7 +148,41 @@ def run(res, tier, seed, wd, replay=None):
     res.cov["rule"] = "evaluations = trace events judged by HolderProp; one trace = one fresh holder with 2-4 threads; scheduled traces are distinct TLC interleavings"
     res.add_tlc({"distinct": v["states"], "generated": v["states"]})
     res.sample({"kind": "trace excerpt (real code, scheduled)", "events": read_ndjson(traces[0])[1:16]})
+    selftest(res, trR, wd)
     log("[verdict] %d events of %d traces validated by TLC against HolderProp: %d flagged rules" % (nev, ntr, len(v["bad"])))
+
+
+def selftest(res, trace_file, wd):
+    ev = read_ndjson(trace_file)
+    def good(seg):
+        # a run in which one thread stored COMPLETE and ANOTHER thread later read the cell
+        st = [i for i, e in enumerate(seg) if e["ev"] == "store"]
+        return bool(st) and any(e["ev"] == "cellr" and e["t"] != seg[st[0]]["t"] for e in seg[st[0]:]) \
+            and any(e["ev"] == "ret" and e.get("r") == "some" for e in seg)
+    run = first_run(ev, good)
+    if run is None:
+        raise ToolError("holder binding self-test: no suitable run")
+    def relax_store(seg):
+        for e in seg:
+            if e["ev"] == "store":
+                e["o"] = "Relaxed"
+        return seg
+    def relax_loads(seg):
+        for e in seg:
+            if e["ev"] == "load":
+                e["o"] = "Relaxed"
+        return seg
+    def other_value(seg):
+        for e in seg:
+            if e["ev"] == "ret" and e.get("r") == "some":
+                e["id"] = 999
+                return seg
+        return None
+    def drop_cell_write(seg):
+        return [e for e in seg if e["ev"] != "cellw"]
+    selftest_corruptions(res, "HolderTrace", run,
+                         [("store logged as Relaxed", relax_store), ("loads logged as Relaxed", relax_loads),
+                          ("get returned an unknown value", other_value), ("cell write event removed", drop_cell_write)], wd, "holder")
 
 
 def do_replay(res, path, wd):
